@@ -557,7 +557,8 @@ def run_direct(world):
                 n, _, i = k.partition(":")
                 res[Resource(name=n, _id=i or "any")] = q
             strategies.add_strategy(ExecutionStrategy(resources=Resources(res), batch_size=st.get("batch_size", 1),
-                                                      runtime=EventTime(st["runtime"], EventTime.Unit.US)))
+                                                      runtime=(coarse(st["runtime"]) if world["direct"].get("coarse_runtimes")
+                                                               else EventTime(st["runtime"], EventTime.Unit.US))))
         profs[p["name"]] = WorkProfile(name=p["name"], execution_strategies=strategies)
     graphs = {}
     for g in world["direct"]["graphs"]:
@@ -582,7 +583,11 @@ def run_direct(world):
             return Workload.from_task_graphs(graphs, _flags=FLAGS)
 
     rt = EventTime(FLAGS.scheduler_runtime, EventTime.Unit.US)
-    if FLAGS.scheduler == "EDF":
+    if world.get("fuzz"):
+        cls = make_fuzz_scheduler(world["fuzz"])
+        sched_wrap(cls)
+        scheduler = cls(_flags=FLAGS)
+    elif FLAGS.scheduler == "EDF":
         scheduler = schedulers.EDFScheduler(preemptive=False, runtime=rt, enforce_deadlines=False, _flags=FLAGS)
     elif FLAGS.scheduler == "FIFO":
         scheduler = schedulers.FIFOScheduler(preemptive=False, runtime=rt, _flags=FLAGS)
@@ -636,7 +641,7 @@ def run_world(world, tmpdir):
     signal.signal(signal.SIGALRM, alarm)
     signal.alarm(int(world.get("wall_limit", 120)))
     try:
-        if world.get("fuzz"):
+        if world.get("fuzz") and not world.get("direct"):
             run_with_fuzz_scheduler(world)
         elif world.get("direct"):
             run_direct(world)
